@@ -280,6 +280,16 @@ def check_big(name, text, dlm, policy, scratch, stats):
              ('text-whole', lambda: observe(PiecewiseText([text]), None, dlm, policy, None, False, len(text) + 1)),
              ('utf8-1024', lambda: observe(PiecewiseRaw([data]), 'utf-8', dlm, policy, None, False, 1024)),
              ('utf8-pieces-1000-cs-64', lambda: observe(PiecewiseRaw([data[i:i + 1000] for i in range(0, len(data), 1000)]), 'utf-8', dlm, policy, None, False, 64))]
+    def cyc(seq, sizes):
+        out, pos, k = [], 0, 0
+        while pos < len(seq):
+            out.append(seq[pos:pos + sizes[k % len(sizes)]])
+            pos += sizes[k % len(sizes)]
+            k += 1
+        return out
+    for sizes in ([20, 1 << 20], [7, 3000, 1, 1024, 100, 65536], [1023, 1024, 1025, 1], [1, 70000]):
+        modes.append(('utf8-mixed-pieces-%s' % '/'.join(map(str, sizes)), lambda sizes=sizes: observe(PiecewiseRaw(cyc(data, sizes)), 'utf-8', dlm, policy, None, False, 1024)))
+        modes.append(('text-mixed-pieces-%s' % '/'.join(map(str, sizes)), lambda sizes=sizes: observe(PiecewiseText(cyc(text, sizes)), None, dlm, policy, None, False, 4096)))
     if len(text) <= 20000:
         modes.append(('text-1', lambda: observe(PiecewiseText([text]), None, dlm, policy, None, False, 1)))
     path = os.path.join(scratch, 'c12_big_%d.csv' % os.getpid())
